@@ -103,4 +103,16 @@ var registry = []prop{
 		Thor:   tierCfg{Shards: 16, Scale: 10, TimeoutS: 1500},
 		Assume: []string{"the endpoint table is the harness's transcription of the OSM API v0.6 documentation plus the library-documented at= extension", "3xx statuses are excluded (net/http handles redirects before the library sees them)", "responses are served by an in-process http.RoundTripper; nothing is sent over a network"},
 	},
+	{
+		ID: "C11", Pkg: "props/c11", Level: "exploration",
+		Quick:  tierCfg{Shards: 1, Scale: 1, TimeoutS: 400},
+		Thor:   tierCfg{Shards: 16, Scale: 10, TimeoutS: 2400},
+		Assume: []string{"child commit times are non-decreasing in the version number; all times on a one-second grid", "a child version committed in the same second as the next parent version may or may not be listed as an update of the previous one (the statement does not say)", "pre-commit regime: parent versions more than 2*threshold apart and at most one child version inside each +-threshold window, so the result does not depend on nearest-in-window tie-breaking; no deletions in that regime", "mixed-era histories are not generated"},
+	},
+	{
+		ID: "C12", Pkg: "props/c12", Level: "exploration",
+		Quick:  tierCfg{Shards: 1, Scale: 1, TimeoutS: 300},
+		Thor:   tierCfg{Shards: 16, Scale: 8, TimeoutS: 1800},
+		Assume: []string{"hash-map iteration orders are sampled by repeating the computation 8 times per case on freshly built equal input", "which of several inconsistencies is reported may differ between runs; only success/failure must agree"},
+	},
 }
